@@ -430,6 +430,20 @@ func (g *Gen) enterLoop(h *ssa.BasicBlock, li *loopInfo) {
 		if phi.Comment != "" {
 			phiVals[phi.Comment] = v
 		}
+		if phi.Comment == "rangeindex" && g.mode == ModeInt {
+			// compiler-generated index of `for range slice`: starts at -1, is only ever incremented by one
+			// under the guard index+1 < len, so -1 <= index < len holds at the loop head (structural fact)
+			for _, in := range h.Instrs {
+				if b, ok := in.(*ssa.BinOp); ok && b.Op == token.LSS {
+					if inc, ok := b.X.(*ssa.BinOp); ok && inc.Op == token.ADD && inc.X == ssa.Value(phi) {
+						if _, inLoop := b.Y.(ssa.Instruction); !inLoop || !li.body[b.Y.(ssa.Instruction).Block()] {
+							ln := g.val(b.Y)
+							g.assume(fmt.Sprintf("(and (<= (- 1) %s) (or (< %s %s) (and (= %s (- 1)) (<= 0 %s))) (<= %s %d))", v.S, v.S, ln.S, v.S, ln.S, ln.S, maxLen))
+						}
+					}
+				}
+			}
+		}
 	}
 	li.entrySt = entry
 	// 3. assume the invariant for an arbitrary iteration
